@@ -52,6 +52,14 @@ def build(cfg, stack):
     no_host = kw.pop('no_host', False)
     no_client = kw.pop('no_client', False)
     no_server = kw.pop('asgi_no_server', None)
+    ws = kw.pop('ws', False)
+    if ws:
+        assert stack == 'asgi'
+        scope = make_scope(kw, no_host, no_client, no_server)
+        scope['type'] = 'websocket'
+        del scope['method']
+        scope['subprotocols'] = []
+        return falcon.asgi.Request(scope, _no_receive)
     if stack == 'wsgi':
         return falcon.Request(make_env(kw, no_host, no_client))
     return falcon.asgi.Request(make_scope(kw, no_host, no_client, no_server), _no_receive)
@@ -226,6 +234,8 @@ def run_case(case, rep, apps=None):
     rep.state()
     nontrivial = False
     for stack in STACKS:
+        if case.cfg.get('ws') and stack == 'wsgi':
+            continue
         a = build(case.cfg, stack)
         b = build(case.cfg, stack)
         o1 = [observe(f, a) for f in fns]
@@ -753,14 +763,27 @@ class FHost(Family):
             for how in ('missing', 'none'):
                 out.insert(nb, (None, scheme, '', '/', '', how))
                 nb += 1
+        # WebSocket handshakes (ASGI only): ws is the plain scheme (default port 80), wss the secure one (443)
+        for scheme in ('ws', 'wss'):
+            for hv in hp:
+                out.append((hv,) + (scheme,) + cfgs[0][1:])
+            for hv in hosts[:2]:
+                out.append((hv,) + (scheme,) + cfgs[1][1:])
+            for port in (80, 443, 8080):
+                out.append((None, scheme, '', '/', '', port))
+                out.append((None, scheme, '/app', '/a/b', 'x=1', port))
+            for how in ('missing', 'none'):
+                out.append((None, scheme, '', '/', '', how))
         return out, nb
 
     def case(self, v, is_base):
         hv, scheme, root, path, qs = v[:5]
-        default = 80 if scheme == 'http' else 443
+        default = 80 if scheme in ('http', 'ws') else 443
         rel = root + path + ('?' + qs if qs else '')
         cfg = {'scheme': scheme, 'root_path': root, 'raw_path': path, 'query': qs, 'host': self.n['srv'],
                'port': default}
+        if scheme in ('ws', 'wss'):
+            cfg['ws'] = True
         if hv is None:
             sport = v[5]
             cfg['no_host'] = True
